@@ -1,10 +1,16 @@
-"""C06 — an npm resolution graph is a valid installation (graph clauses; skeleton universes with symbolic version numbers)."""
+"""C06 — an npm resolution graph is a valid installation (graph clauses and, through the verif hook, the install-tree clauses; skeleton universes with symbolic version numbers)."""
 import random
 from vlib.runner import Group, run_property
 
 SUM = ["deps.dev/util/semver.compare", "(deps.dev/util/resolve/internal/attr.Set).Compare", "(*deps.dev/util/semver.Constraint).Match",
        "(deps.dev/util/semver.System).Compare", "(deps.dev/util/resolve.PackageKey).Compare"]
 NOPS = 10
+NOPS2 = 18
+OPS2 = ["*", "D.0.0", "^D.0.0", ">=D.0.0", "D.x", "latest", "<D.0.0", "~D.0.0", "^D.0.0-rc", "next", ">=D.0.0-rc", "D.1.0", "<=D.1.0",
+        "D.0.0 || D.0.0", ">D.0.0", "D.0.x", "~D.1.0", "D.0.0 - D.1.0"]  # = harness c06Ops2
+# operator indices (harness c06Ops2) grouped by how likely they are to force a second copy of a package
+EXACT = [1, 11, 13, 15]
+WIDE = [0, 2, 3, 4, 5, 6, 7, 8, 9, 10, 12, 14, 16, 17]
 
 
 def skeleton(rnd, rich):
@@ -30,15 +36,111 @@ def skeleton(rnd, rich):
     return p
 
 
+def _slot(p, tag, rnd, t, conflict, alias_p, kinds):
+    p[tag + "t"] = t
+    p[tag + "r"] = rnd.choice(EXACT) if rnd.random() < conflict else rnd.choice(WIDE)
+    p[tag + "k"] = rnd.choice(kinds)
+    p[tag + "a"] = rnd.choice([1, 1, 2, 3]) if (t and rnd.random() < alias_p) else 0
+
+
+def _fix_names(p, tags):
+    """A package.json section is a map: the names under which one version's dependencies are installed (the alias
+    if there is one, else the package name) are pairwise distinct, except for the deliberate same-package pairs."""
+    names = ["", "x", "y", "b"]
+    pk = ["", "a", "b", "c", "d"]
+    seen = set()
+    for tag in tags:
+        if not p[tag + "t"]:
+            continue
+        n = names[p[tag + "a"]] or pk[p[tag + "t"]]
+        if n in seen and p[tag + "a"]:
+            p[tag + "a"] = 0
+            n = pk[p[tag + "t"]]
+        seen.add(n)
+    # an alias equal to the name of a package that the same version also requires under its own name
+    plain = {pk[p[tag + "t"]] for tag in tags if p[tag + "t"] and not p[tag + "a"]}
+    for tag in tags:
+        if p[tag + "t"] and p[tag + "a"] and names[p[tag + "a"]] in plain:
+            p[tag + "a"] = 0
+
+
+# pairs (kind of the first slot, kind of the second) that package.json merging gives a defined meaning when both
+# slots of one version name the same package
+SAME_PKG = [(0, 5), (0, 2), (0, 3), (1, 0), (4, 0), (0, 1), (2, 0), (5, 0), (4, 1)]
+
+
+def skeleton2(rnd, np=None, conflict=0.55, alias_p=0.0, dup_p=0.12, symbolic=5):
+    """Second-generation skeleton: np packages, two slots per version, four on the root."""
+    np = np or rnd.choice([3, 3, 4])
+    p = {"np": np}
+    kinds = [0, 0, 0, 0, 1, 2, 3, 4, 5]
+    targets = list(range(1, np + 1))
+    rnd.shuffle(targets)
+    for s in range(4):
+        t = targets[s] if s < np and (s < 2 or rnd.random() < 0.7) else 0
+        _slot(p, "r%d" % s, rnd, t, conflict, alias_p, [0, 0, 0, 0, 1, 4])
+    _fix_names(p, ["r%d" % s for s in range(4)])
+    for pi in range(4):
+        nv = rnd.choice([1, 2, 2, 3])
+        p["nv%d" % pi] = nv
+        p["latest%d" % pi] = rnd.choice([-1] + list(range(nv)))
+        p["next%d" % pi] = rnd.choice([-1, -1, -1] + list(range(nv)))
+        used = set()
+        for vi in range(3):
+            tag = "%d%d" % (pi, vi)
+            while True:
+                key = (rnd.choice([1, 2, 2, 3]), rnd.choice([0, 0, 1]), rnd.choice([0, 0, 0, 1]))
+                if key not in used:
+                    used.add(key)
+                    break
+            p["mj" + tag], p["mi" + tag], p["pr" + tag] = key
+            p["bl" + tag] = rnd.choice([0, 0, 1])
+            others = [t for t in range(1, np + 1) if t != pi + 1]  # a package does not depend on itself
+            t0 = rnd.choice([0] + others + others)
+            _slot(p, "p%ss0" % tag, rnd, t0, conflict, alias_p, kinds)
+            if t0 and rnd.random() < dup_p:
+                k0, k1 = rnd.choice(SAME_PKG)
+                p["p%ss0k" % tag] = k0
+                _slot(p, "p%ss1" % tag, rnd, t0, conflict, 0.0, [k1])
+                p["p%ss0a" % tag] = 0
+            else:
+                t1 = rnd.choice([0, 0] + [t for t in others if t != t0])
+                _slot(p, "p%ss1" % tag, rnd, t1, conflict, alias_p, kinds)
+                _fix_names(p, ["p%ss0" % tag, "p%ss1" % tag])
+    # Symbolic digits: the requirements of the root and of the first versions listed keep symbolic digits until
+    # `symbolic` of them are in play; every later requirement gets a concrete digit (each symbolic digit can
+    # triple the number of paths).
+    ops = OPS2
+    left = symbolic
+    tags = ["r%d" % s for s in range(4)] + ["p%d%ds%d" % (pi, vi, s) for vi in range(3) for pi in range(np) for s in range(2)]
+    for tag in tags:
+        nd = ops[p[tag + "r"]].count("D") if p[tag + "t"] else 0
+        if nd and left >= 1:
+            p[tag + "c"] = 0
+            left -= 1
+        else:
+            p[tag + "c"] = rnd.choice([1, 2, 3])
+    for tag in ["p%d%ds%d" % (pi, vi, s) for vi in range(3) for pi in range(np, 4) for s in range(2)]:
+        p[tag + "c"] = 1
+    return p
+
+
 def run(tier):
-    base = dict(unwind=400, timeout_s=300 if tier == "quick" else 1200, summarise=SUM, max_witnesses=1, witness_every=50, panic_is_violation=True,
+    q = tier == "quick"
+    base = dict(unwind=400, timeout_s=300 if q else 1200, summarise=SUM, max_witnesses=1, witness_every=50, panic_is_violation=True,
                 max_steps=50_000_000, max_depth=200)
     rnd = random.Random(20261001)  # fixed: the same skeletons on every run
-    n = 60 if tier == "quick" else 600
-    jobs = [dict(base, harness="VerifC06Resolve", params=skeleton(rnd, tier != "quick")) for _ in range(n)]
-    return run_property("C06", tier, [Group("rnpm", jobs)],
-                        required_covers=["resolved", "a graph with several nodes", "fresh install checked"],
-                        assumptions=["universe skeletons (3 packages + root, <=3 versions, one requirement slot per version, three for the root) are a fixed pseudo-random sample; version majors and the digits in requirements are symbolic in 1..4",
-                                     "the two install-tree clauses (one package of a name per directory, Node's lookup) are not decided: the install tree is not observable without a hook and none was added",
-                                     "aliases and bundled (derived) packages are not generated; a version places at most one requirement on a package"],
-                        bounds={"skeletons": n, "packages": 3, "versions_per_package": 3, "digits": "1-4"})
+    n = 60 if q else 600
+    jobs = [dict(base, harness="VerifC06Resolve", params=skeleton(rnd, not q)) for _ in range(n)]
+    rnd2 = random.Random(20261002)
+    n2 = 1100 if q else 12000
+    na = 400 if q else 4000
+    jobs2 = [dict(base, harness="VerifC06Install", params=skeleton2(rnd2)) for _ in range(n2)]
+    jobs2 += [dict(base, harness="VerifC06Install", params=skeleton2(rnd2, alias_p=0.35)) for _ in range(na)]
+    return run_property("C06", tier, [Group("rnpm", jobs + jobs2)],
+                        required_covers=["resolved", "a graph with several nodes", "fresh install checked", "a nested install (depth 2)",
+                                         "a nested install below a nested install (depth 3)", "an edge resolved to a nested install"],
+                        assumptions=["universe skeletons are a fixed pseudo-random sample (first generation: 3 packages + root, <=3 versions, one requirement slot per version; second generation: 3-4 packages + root, <=3 versions with minor 0/1 and optional -rc, two requirement slots per version and four on the root, kinds regular/optional/dev/peer/bundle-scoped/dev+optional, aliases in a quarter of the skeletons, two requirements of one version on one package only in the combinations package.json merging defines); version majors and the digits in requirements are symbolic in 1..4",
+                                     "the install tree is observed through the verif-tagged hook at the end of npm Resolve (util/resolve/npm/verif_hook.go); the tree clauses are: tree nodes = graph nodes, no directory holds a package name twice (children vs aliases), Node's walk-up lookup from the dependent lands on the edge's target",
+                                     "bundled (derived) packages are not generated"],
+                        bounds={"skeletons_gen1": n, "skeletons_gen2": n2 + na, "packages": "3-4", "versions_per_package": 3, "slots_per_version": 2, "digits": "1-4"})
